@@ -711,6 +711,7 @@ void run_child(const Plan &P, const std::string &rundir)
         C->producer_tid[i] = -1;
 
     alarm(20); // real-time watchdog: a baton holder that never reaches a scheduling point again
+    sim::set_fake_pid(4242);
     sim::clock_set(1767225600ll * sim::SEC + 12 * 3600 * sim::SEC, 1000 * sim::SEC);
 
     if (!getenv("TSIM_KEEP_STDERR")) {
